@@ -20,7 +20,8 @@ def validStr : Option DenomErr → String
 
 def denomJson (d : Denom) : Json :=
   Json.mkObj [("trace", hopsJson d.trace), ("base", jstr d.base), ("valid", validStr d.validate),
-    ("path", jstr d.path), ("ibc", jstr (d.ibcDenom Sha256.hashHex)), ("native", d.isNative)]
+    ("path", jstr d.path), ("ibc", jstr (d.ibcDenom Sha256.hashHex)), ("native", d.isNative),
+    ("hopFree", hopFreeBase d.base)]
 
 def getHops (j : Json) (k : String) : Except String (List Hop) := do
   let a ← arr j k
